@@ -505,6 +505,9 @@ class Resolver:
                 return frozenset({("list", inner)})
             if fn.id in ("str", "int", "len", "bytes", "bytearray", "bool", "float"):
                 return ext(fn.id)
+        if isinstance(fn, ast.Attribute) and fn.attr in ("split", "rsplit", "splitlines") and not self.prog.methods_named(fn.attr):
+            # no class of the package has such a method: the text methods of str/bytes, which answer with a list of pieces
+            return frozenset({("list", ext("str"))})
         callee = self.infer(fn, f, env)
         out: Set[tuple] = set()
         for t in callee:
